@@ -47,7 +47,7 @@ class FieldArray:
       return other == self._data
     elif isinstance(other, gfapy.FieldArray):
       return other.datatype == self._datatype and \
-          other.data == self._data
+          other._data == self._data
     else:
       return False
 
